@@ -1,3 +1,5 @@
+#define _GNU_SOURCE
+#include <sched.h>
 /* C18 harness: load topologies from (mutilated) Linux/x86 snapshots and print
  * canonical dumps.  Superset of hwv_topo.c's script language:
  *   new / <config lines, see hwv_load.h> / load / dump [flags] / check / destroy / echo <text>
@@ -6,6 +8,7 @@
  *   hide <relpath>      rename(<root>/<relpath>, <stash>/<n>): the path disappears from the snapshot
  *   put <relpath> <hexbytes|->   (re)place a regular file (parents created), symlink <relpath> <target> likewise
  *   unhide              every hidden path is put back, every created one removed (reverse order)
+ *   bindself all|<cpu,...>   sched_setaffinity of this process
  *   trace 1|0           print the "lnode"/"mreq" lines described below (needs the HWLOC_VERIF hooks of /repo)
  *   components <flags> <name>    hwloc_topology_set_components;   pid <n>  hwloc_topology_set_pid;   kinds   CPU kinds through the public API
  *   xmlrt               export the loaded topology to an XML buffer, reload it into a second topology
@@ -335,6 +338,14 @@ int main(void)
       } else
 #endif
         printf("trace rc=-1\n");
+    } else if (!strncmp(line, "bindself ", 9)) {
+      /* bindself all | <cpu>[,<cpu>...] : OS binding of this process (what RESTRICT_TO_CPUBINDING looks at) */
+      static cpu_set_t initial; static int have_initial = 0; cpu_set_t set; int rc;
+      if (!have_initial) { sched_getaffinity(0, sizeof(initial), &initial); have_initial = 1; }
+      if (!strcmp(line + 9, "all")) set = initial;
+      else { char *p = line + 9; CPU_ZERO(&set); while (*p) { CPU_SET((int) strtol(p, &p, 10), &set); if (*p == ',') p++; } }
+      rc = sched_setaffinity(0, sizeof(set), &set);
+      printf("bindself rc=%d\n", rc);
     } else if (!strncmp(line, "pid ", 4) && t) {
       int rc; errno = 0;
       rc = hwloc_topology_set_pid(t, (hwloc_pid_t)atoi(line + 4));
